@@ -190,8 +190,7 @@ theorem Ob_OrderedMap_remove_step_md (m : OMap r) (s : MHSt r) (k : MKey) (depth
   rw [Ob_OrderedMap_remove_step T eb rs (md_map m s) k depth _ s1 rk rv hdisp]
   have hx : MapSlab.extraData_ (md_tree d' t' (some (md_extra m))) = some (md_extra m) := by
     cases d' <;> rfl
-  simp only [mdr_topAfter, hx, mdr_decr_md_tree m d' t' hc]
-  rfl
+  simp only [mdr_topAfter, hx, mdr_decr_md_tree m d' t' hc] <;> rfl
 end md
 
 namespace MdrEx
